@@ -446,6 +446,8 @@ class Sym:
             return float('-inf')
         if self.e.is_number:
             return float(self.e)
+        if self.e.free_symbols <= {PI}:
+            return float(self.e.subs(PI, sp.pi))
         raise Unsupported('float() of a symbolic value escapes the model')
 
     def __int__(self):
@@ -775,6 +777,15 @@ def s_sqrt(a):
             return Sym(r)
     if e.has(sp.I):
         raise Unsupported('sqrt of a symbolic complex value')
+    # perfect squares whose root has a known sign (sympy assumptions): sqrt(x**2) = x for x > 0
+    try:
+        rs = sp.sqrt(sp.factor(e)) if e.count_ops() < 40 else None
+        if rs is not None and not rs.has(sp.Pow) or (rs is not None and all(
+                (pw.exp.is_Integer) for pw in rs.atoms(sp.Pow))):
+            if not rs.has(sp.Abs) and not rs.has(sp.sign):
+                return Sym(rs)
+    except Exception:
+        pass
     p = current()
     n, d = numden(e)
     # perfect squares of known sign need no atom
